@@ -12,6 +12,7 @@ def dispatch (toks : List String) : String :=
   | "c01" :: rest => Pb.Drv.C01.handle rest
   | "c02" :: rest => Pb.Drv.C02.handle rest
   | "c03" :: rest => Pb.Drv.C03.handle rest
+  | "c05" :: rest => Pb.Drv.C05.handle rest
   | "c06" :: rest => Pb.Drv.C06.handle rest
   | "c10" :: rest => Pb.Drv.C10.handle rest
   | "c12" :: rest => Pb.Drv.C12.handle rest
